@@ -20,6 +20,7 @@ ALPHA = {
 ALPHA["group2"] = ALPHA["group"]
 ALPHA["anchored"] = ALPHA["group"]
 ALPHA["maybe-empty"] = ALPHA["none"]
+ALPHA["optional-group"] = ALPHA["group"]
 ALPHA_NUM = {
     "none": ["2", "10", "9.5", "-3", "2.0", "", "   ", "  2", "10  ", "1e1"],
     "group": ["id: 2", "id: 10", "id: 9.5", "id: -3", "id: 2.0", "", "other", "  id: 2", "id: 10  ; x", "id: 1e1"],
@@ -28,7 +29,7 @@ ALPHA_NUM = {
 ALPHA_NUM["group2"] = ALPHA_NUM["group"]
 ALPHA_NUM["anchored"] = ALPHA_NUM["group"]
 PATTERN = {"none": None, "group": r"id: (?P<value>\S+)", "plain": r"\S+$", "group2": r"(id|zz id): (?P<value>\S+)( ;)?",
-           "anchored": r"^\s*id: (?P<value>\S+)$", "maybe-empty": r"\d*"}
+           "anchored": r"^\s*id: (?P<value>\S+)$", "maybe-empty": r"\d*", "optional-group": r"id: (?P<value>[a-z]+)|\S+"}
 DIRECTIONS = ["asc", "desc", "", "ASC", "Desc", None]   # None = bare attribute
 
 RULE = ("Bounded-exhaustive: every sequence of up to MAXLEN lines over a 10-12 symbol alphabet (ordered, equal, "
@@ -57,9 +58,9 @@ def _attrs(direction, mode, numeric):
 def plan(tier, seed):
     jobs = []
     maxlen = MAXLEN[tier]
-    for mode in ("none", "group", "plain", "group2", "anchored", "maybe-empty"):
+    for mode in ("none", "group", "plain", "group2", "anchored", "maybe-empty", "optional-group"):
         for numeric in (False, True):
-            if numeric and mode == "maybe-empty":
+            if numeric and mode in ("maybe-empty", "optional-group"):
                 continue      # an empty key is not a number: that combination belongs to C13
             alpha = (ALPHA_NUM if numeric else ALPHA)[mode]
             for di, direction in enumerate(DIRECTIONS):
